@@ -27,7 +27,7 @@ warnings.simplefilter("ignore", RuntimeWarning)
 from aj_common import REPO
 sys.path.insert(0, REPO)
 import asynciojobs                                         # noqa: E402
-from asynciojobs import AbstractJob, Job, Scheduler, PureScheduler   # noqa: E402
+from asynciojobs import AbstractJob, Job, Scheduler, PureScheduler, PrintJob   # noqa: E402
 
 LOG = []
 CUR = contextvars.ContextVar("cur_sched", default=None)
@@ -315,6 +315,50 @@ class VJob(AbstractJob):
         await handler(self)
 
 
+class VPrintJob(PrintJob):
+    """the library's own PrintJob (prints, sleeps `d`, returns None), observed from a thin subclass"""
+
+    def __init__(self, name, spec):
+        self.name = name
+        self.spec = spec
+        self.h = spec.get("h", 0)
+        self.exc_obj = None
+        self.ret_obj = None
+        self.gen = STATE["gen"]
+        STATE["jobs"][name] = self
+        super().__init__("message of " + name, sleep=spec["d"], label=name)
+        self.critical = spec["crit"]
+        self.forever = spec["forever"]
+
+    def __hash__(self):
+        return self.h
+
+    def __eq__(self, o):
+        return self is o
+
+    async def co_run(self):
+        emitj(self, "begin", self.name)
+        try:
+            r = await super().co_run()
+        except asyncio.CancelledError:
+            emitj(self, "cseen", self.name)
+            emitj(self, "cdone", self.name)
+            raise
+        self.ret_obj = r
+        emitj(self, "end", self.name)
+        return r
+
+    async def co_shutdown(self):
+        await handler(self)
+
+
+def job_class(node):
+    if node.get("cls") == "print" and not node.get("exc") and node.get("d") is not None \
+            and not node.get("k") and not node.get("ch") and not node.get("peek"):
+        return VPrintJob
+    return VCoJob if node.get("coro") else VJob
+
+
 class VCoJob(Job):
     """coroutine-based Job"""
 
@@ -437,7 +481,7 @@ def build(sc):
     def mk(node):
         name = node["name"]
         if node["kind"] == "job":
-            o = (VCoJob if node.get("coro") else VJob)(name, node)
+            o = job_class(node)(name, node)
         else:
             kids = [mk(c) for c in node["children"]]
             cls = VP if node.get("pure") else VS
